@@ -19,9 +19,16 @@ func init() {
 			"(3) all-spot candidates whose replacement may be spot take the spot-to-spot path, which requires the feature gate, pins capacity-type=spot, and for a single node ≥15 cheaper options (then truncates to max(15, minValues need)); on the regular path a request admitting both spot and on-demand is pinned to spot; " +
 			"(4) SimulateScheduling records a PodError for every pod placed on an uninitialized existing node unless the pod comes from a deleting node; " +
 			"(5) validateCommand returns nil only after a successful re-simulation with all pods scheduled and a matching cardinality (0/0, or 1 with the command's options a subset of the simulated ones); " +
-			"(6) multi-node search saves a replace decision only after filterOutSameInstanceType succeeded with options left; the reschedule cost adds max(0, EvictionCost) per pod.",
-		NotCovered: []string{"that the replacement is cheaper for a given price table (WorstLaunchPrice semantics and float arithmetic)", "soundness of the simulation itself (C01/C02)", "balanced-scoring thresholds"},
-		Rules:      c06Rules,
+			"(6) multi-node search saves a replace decision only after filterOutSameInstanceType succeeded with options left; the reschedule cost adds max(0, EvictionCost) per pod; " +
+			"(7) what the simulation is run on: the nodes it may place pods on are the active nodes that are NOT candidates (by name); the pods it places contain, for every candidate, its reschedulable pods (a pod is left out only if it is not currently reschedulable under the PDBs), the reschedulable pods of deleting nodes and the pending pods, and the same list goes to NewScheduler and to Solve; it reports success only if each of these listings (and building the scheduler) succeeded; " +
+			"(8) the price ceiling: Candidate.Price is resolveNodePrice(node, the pool's instance type named by the node's instance-type label), which is 0 or OfferingPrice(zone label, capacity-type label)#0; OfferingPrice reports a price as found only for an offering of that zone AND that capacity type; Candidate.capacityType is the node's capacity-type label; " +
+			"(9) WorstLaunchPrice = Price of the dearest offering compatible with the request in the first capacity type (reserved, spot, on-demand) that has one, else MaxFloat64; Offerings.Available / Compatible keep exactly the available / compatible offerings, MostExpensive is a maximum by Price; " +
+			"(10) emptiness: a candidate enters the Emptiness command only under IsEmpty (RescheduleDisruptionCost ≤ 1), the command carries exactly that list, and the re-validated candidates that replace it come from GetCandidates filtered (kept ⇒ filter true) by Emptiness.ShouldDisrupt, which implies IsEmpty; " +
+			"(11) validation is not bypassed: ConsolidationValidator.isValid returns nil only if validateCommand did (on the candidates validateCandidates just returned, which are the proposed ones by name, all of them), Validate succeeds only if isValid did, single-/multi-node ComputeCommands return a command only after Validate succeeded, and that command is the validated one (VALID1/2).",
+		NotCovered: []string{"float arithmetic of prices and the contents of the provider's price table (overlays are applied before these functions see an offering)", "soundness of the simulation itself (C01/C02)", "balanced-scoring thresholds",
+			"the same-instance-type price cap computed inside filterOutSameInstanceType (it can only remove options; the statement's price bound is already established by computeConsolidation)",
+			"Command.Decision() classification (a misclassified command is skipped or crashes the search; what is launched is decided by Command.Replacements)"},
+		Rules: c06Rules,
 	})
 }
 
@@ -34,6 +41,15 @@ func c06Rules(tier string) []Rule {
 	// taken then, so nothing waits once the first validateCandidates has run
 	rules = append(rules, NOREACH{ID: "C06.FRESH1", Fn: "(*disr.ConsolidationValidator).isValid", From: `^call \(\*disr\.ConsolidationValidator\)\.validateCandidates\(\$0, \$2\.Candidates\)$`,
 		Sink: `^call iface:\(k8s\.io/utils/clock\.\w+\)\.(After|Sleep)\(|^call time\.(Sleep|After)\(`, Note: "no waiting after the candidates were validated"})
+	// ---- triage of the mutation sweep (clauses 7-11 of the Explanation)
+	rules = append(rules, c06SimulationInputs()...)
+	rules = append(rules, c06PriceCeiling()...)
+	rules = append(rules, offeringPriceRules("C06")...)
+	rules = append(rules, worstLaunchPriceRules("C06")...)
+	rules = append(rules, offeringViewRules("C06")...)
+	rules = append(rules, c06Emptiness()...)
+	rules = append(rules, c06ValidationChain()...)
+	rules = append(rules, validatedCommandRules("C06")...)
 	return rules
 }
 
@@ -355,8 +371,9 @@ func c06FirstN(w *core.World, id string) []core.Result {
 	if n == 0 {
 		out = append(out, core.Bad(id, "MPT", construct, w.Pos(fn.Pos()), "vacuous: the validDecision flag was not found (idiom not recognised)"))
 	}
-	// the save is guarded by the flag
-	d := DOM{ID: id, Fn: fname, Sink: `^store &local<disr\.Command> = \(\*disr\.consolidation\)\.computeConsolidation\(.*\)#0$`, Shallow: true, Min: 1, Gates: gates(G(`+^phi\(false\|phi\(true\|\(\(disr\.Command\)\.Decision\(`))}
+	// the save is guarded by the flag, whose only non-constant source is "the command is a delete decision" (nothing to launch):
+	// a replace decision becomes valid through the `true` edges judged above only
+	d := DOM{ID: id, Fn: fname, Sink: `^store &local<disr\.Command> = \(\*disr\.consolidation\)\.computeConsolidation\(.*\)#0$`, Shallow: true, Min: 1, Gates: gates(G(`+^phi\(false\|phi\(true\|\((\(disr\.Command\)\.Decision\(.*\) == disr\.DeleteDecision|disr\.DeleteDecision == \(disr\.Command\)\.Decision\(.*\))\)\)\)$`))}
 	for _, r := range d.Check(w) {
 		if r.Status != core.Discharged {
 			out = append(out, r)
@@ -373,4 +390,397 @@ func c06FirstN(w *core.World, id string) []core.Result {
 		out = append(out, core.OK(id, "MPT", construct, n, "replace decisions valid only after filterOutSameInstanceType ok ∧ options left; saved only when valid"))
 	}
 	return out
+}
+
+// ---------------------------------------------------------------------------------------------------------------------
+// Triage of the mutation sweep: the facts clauses (7)-(11) of the Explanation rest on.
+
+func tc06Bad(rs []core.Result) []core.Result {
+	var out []core.Result
+	for _, r := range rs {
+		if r.Status != core.Discharged {
+			out = append(out, r)
+		}
+	}
+	return out
+}
+
+// c06SimulationInputs — what SimulateScheduling hands to the scheduler. "Every reschedulable pod of the removed nodes has
+// a feasible home on the REMAINING nodes" is only what the simulation shows if (a) the removed nodes are not among the
+// nodes it may use, (b) the pods of every removed node are among the pods it places, together with the pods that are
+// already on their way to the same capacity (pods of deleting nodes, pending pods), and (c) a listing that failed is not
+// read as "no such pods".
+func c06SimulationInputs() []Rule {
+	const sim = "disr.SimulateScheduling"
+	const newSched = `^call \(\*prov\.Provisioner\)\.NewScheduler\(`
+	const solve = `^call \(\*sched\.Scheduler\)\.Solve\(`
+	nodeFilter := `^call lo\.Filter\[\*state\.StateNode, state\.StateNodes\]\(`
+	return []Rule{
+		// (a) usable nodes = active nodes whose name is not a candidate's
+		core.Custom{ID: "C06.SIM1", Kind: "PROV", Run: func(w *core.World, id string) []core.Result {
+			rs := core.ArgProvenance(w, id, sim, newSched, 3,
+				`^lo\.Filter\[\*state\.StateNode, state\.StateNodes\]\(\(state\.StateNodes\)\.Active\(\(\*state\.Cluster\)\.DeepCopyNodes\(\$2\)\), [a-z]+:[^ ]*\)$`,
+				"the nodes the simulation may use are the active nodes that pass the not-a-candidate filter (kept when the predicate holds)")
+			fn := w.Fn(sim)
+			if fn == nil {
+				return append(rs, core.Anchor(id, "PROV", sim))
+			}
+			// the filter (and the name set it tests) may live in an extracted helper: judge it where it is, in SimulateScheduling's terms
+			found := false
+			closureOf := func(f *ssa.Function, callRe string) *ssa.Function {
+				for _, s := range w.Sites(f, regexp.MustCompile(callRe), true) {
+					if ci, ok := s.(ssa.CallInstruction); ok {
+						if args := core.CallArgs(ci.Common()); len(args) >= 2 {
+							switch x := args[1].(type) {
+							case *ssa.MakeClosure:
+								if g, ok := x.Fn.(*ssa.Function); ok {
+									return g
+								}
+							case *ssa.Function:
+								return x
+							}
+						}
+					}
+				}
+				return nil
+			}
+			has := `\(apim/util/sets\.String\)\.Has\(.*, \(\*state\.StateNode\)\.Name\(\$0\)\)`
+			w.WithHelpers(fn, func(f *ssa.Function, _ ssa.Instruction) {
+				if found {
+					return
+				}
+				p := closureOf(f, nodeFilter)
+				if p == nil {
+					return
+				}
+				found = true
+				pred := core.FnName(p)
+				rs = append(rs, (MPT{ID: id, Fn: pred, Ret: core.RetTrue, Gates: gates(G(`-^` + has + `$`)), Note: "a node is usable only if its name is not a candidate's"}).Check(w)...)
+				rs = append(rs, core.ArgProvenance(w, id, pred, `^call \(apim/util/sets\.String\)\.Has\(`, 0,
+					`^\^?apim/util/sets\.NewString\(lo\.Map\[\*disr\.Candidate, string\]\(\$7, [a-z]+:[^ ]*\)\)$`, "the excluded names are computed from the candidates handed in")...)
+			})
+			if !found {
+				rs = append(rs, core.Bad(id, "PROV", "PROV:"+sim+":node-filter", w.Pos(fn.Pos()), "the predicate that keeps the candidates out of the usable nodes cannot be resolved"))
+			}
+			if m := closureOf(fn, `^call lo\.Map\[\*disr\.Candidate, string\]\(\$7, `); m != nil {
+				rs = append(rs, core.InstrPresent(w, id, "PROV", core.FnName(m), `^return \(\*state\.StateNode\)\.Name\(\$0\.StateNode\)$`, 1, "…as the candidates' node names")...)
+			} else {
+				rs = append(rs, core.Bad(id, "PROV", "PROV:"+sim+":names", w.Pos(fn.Pos()), "the mapping of the candidates to their node names cannot be resolved"))
+			}
+			return tc06Explain(rs, "the simulation must not be allowed to place pods on the candidates themselves: they are the nodes being removed")
+		}},
+		// (b) the pods
+		core.Custom{ID: "C06.SIM2", Kind: "PROV", Run: func(w *core.World, id string) []core.Result {
+			return c06SimPods(w, id, sim, newSched, solve)
+		}},
+		// (c) failed listings
+		MPT{ID: "C06.SIM3", Fn: sim, Ret: core.RetNilConst, Gates: gates(
+			G(`+^\(\*prov\.Provisioner\)\.GetPendingPods\(\$3\)#1 == nil$`),
+			G(`+^utils/pdb\.NewLimits\(\$1\)#1 == nil$`),
+			G(`+^\(state\.StateNodes\)\.CurrentlyReschedulablePods\(\(state\.StateNodes\)\.Deleting\(.*\), .*\)#1 == nil$`),
+			G(`+^\(\*prov\.Provisioner\)\.NewScheduler\(.*\)#1 == nil$`),
+		), Note: "a failed listing of pending pods / PDBs / pods of deleting nodes is not 'none'"},
+	}
+}
+
+func c06SimPods(w *core.World, id, sim, newSched, solve string) []core.Result {
+	fn := w.Fn(sim)
+	if fn == nil {
+		return []core.Result{core.Anchor(id, "PROV", sim)}
+	}
+	construct := "PROV:" + sim + ":pods"
+	type want struct {
+		re   *regexp.Regexp
+		what string
+	}
+	elem := `\$7\[\(phi\(-1\|\(phi↺ \+ 1\)\) \+ 1\)\]\.reschedulablePods`
+	wants := []want{
+		{regexp.MustCompile(`^(lo\.Filter\[\*corev1\.Pod, \[\]\*corev1\.Pod\]\(` + elem + `, [a-z]+:[^ ]*\)|` + elem + `)$`), "the reschedulable pods of each candidate (at most filtered, kept when the predicate holds)"},
+		{regexp.MustCompile(`^\(state\.StateNodes\)\.CurrentlyReschedulablePods\(.*\)#0$`), "the reschedulable pods of the nodes that are already deleting"},
+		{regexp.MustCompile(`^\(\*prov\.Provisioner\)\.GetPendingPods\(\$3\)#0$`), "the pending pods"},
+	}
+	var out []core.Result
+	var candLeaf ssa.Value
+	nsites := 0
+	for _, callRe := range []string{newSched, solve} {
+		sites := w.SitesOr(fn, regexp.MustCompile(callRe), true, 1)
+		if len(sites) == 0 {
+			out = append(out, core.Bad(id, "PROV", construct, w.Pos(fn.Pos()), "vacuous: no call matching `"+callRe+"` in "+sim))
+			continue
+		}
+		for _, s := range sites {
+			ci, ok := s.(ssa.CallInstruction)
+			if !ok {
+				continue
+			}
+			args := core.CallArgs(ci.Common())
+			if len(args) < 3 {
+				out = append(out, core.Bad(id, "PROV", construct, w.InstrPos(s), "the call has no pod list argument"))
+				continue
+			}
+			nsites++
+			leaves := w.SliceSources(s.Parent(), args[2])
+			for _, wt := range wants {
+				found := false
+				for _, l := range leaves {
+					if !l.Elem && core.MatchRe(wt.re, l.Text) {
+						found = true
+						if wt.re == wants[0].re {
+							candLeaf = l.Val
+						}
+					}
+				}
+				if !found {
+					var got []string
+					for _, l := range leaves {
+						got = append(got, clipStr(l.Text, 90))
+					}
+					out = append(out, core.Bad(id, "PROV", construct+"∌"+wt.what, w.InstrPos(s),
+						fmt.Sprintf("the pod list handed to `%s` does not contain %s; it is made of {%s} — pods the simulation does not place are pods it promises nothing about, and pods already heading for the same capacity are not accounted for", clipStr(w.RenderInstr(s), 60), wt.what, strings.Join(got, " ; "))))
+				}
+			}
+		}
+	}
+	// …"deleting" = the deleting nodes of the snapshot of this cluster
+	out = append(out, tc06Bad(core.ArgProvenance(w, id, sim, `^call \(state\.StateNodes\)\.CurrentlyReschedulablePods\(`, 0, `^\(state\.StateNodes\)\.Deleting\(\(\*state\.Cluster\)\.DeepCopyNodes\(\$2\)\)$`, "the pods already on their way are those of the cluster's deleting nodes"))...)
+	// every candidate contributes: an iteration of the loop over the candidates completes only after its pods were appended
+	if candLeaf != nil {
+		host := fn
+		if in, ok := candLeaf.(ssa.Instruction); ok && in.Parent() != nil {
+			host = core.RootFn(in.Parent())
+		}
+		it := ITER{ID: id, Fn: core.FnName(host), Loop: `+^\(phi\(-1\|\(phi↺ \+ 1\)\) \+ 1\) < len\(\$\d+\)$`,
+			Gates: gates(G(`instr:^call append\(.*\.reschedulablePods`)), Note: "no candidate is passed over"}
+		for _, r := range it.Check(w) {
+			if r.Status != core.Discharged {
+				r.Msg += " — the pods of EVERY candidate must enter the simulation"
+				out = append(out, r)
+			}
+		}
+		// …and the walk over the candidates is left only when it is exhausted (no `break` on the way)
+		if host == core.RootFn(fn) {
+			exh := G(`-^\(phi\(-1\|\(phi↺ \+ 1\)\) \+ 1\) < len\(\$7\)$`)
+			for _, callRe := range []string{newSched, solve} {
+				for _, s := range w.Sites(fn, regexp.MustCompile(callRe), true) {
+					if !w.GuardedBy(s, exh) {
+						out = append(out, core.Bad(id, "PROV", construct+"⇐"+exh.Text, w.InstrPos(s), "`"+clipStr(w.RenderInstr(s), 60)+"` is reachable before the walk over the candidates is exhausted — the pods of EVERY candidate must enter the simulation"))
+					}
+				}
+			}
+		} else {
+			exh := G(`-^\(phi\(-1\|\(phi↺ \+ 1\)\) \+ 1\) < len\(\$\d+\)$`)
+			for _, sk := range w.ReturnSinks(host, core.RetAny) {
+				if !w.RetGuarded(sk, exh) {
+					out = append(out, core.Bad(id, "PROV", construct+"⇐"+exh.Text, w.InstrPos(sk.Ret), core.FnName(host)+" can return before its walk over the candidates is exhausted — the pods of EVERY candidate must enter the simulation"))
+				}
+			}
+		}
+		// a pod of a candidate is left out only when it is not currently reschedulable (blocked by a PDB: it will not be evicted)
+		if c, ok := candLeaf.(*ssa.Call); ok && len(c.Call.Args) == 2 {
+			var pred *ssa.Function
+			switch x := c.Call.Args[1].(type) {
+			case *ssa.MakeClosure:
+				pred, _ = x.Fn.(*ssa.Function)
+			case *ssa.Function:
+				pred = x
+			}
+			if pred == nil {
+				out = append(out, core.Bad(id, "PROV", construct+":filter", w.InstrPos(c), "the predicate filtering a candidate's pods cannot be resolved"))
+			} else {
+				cur := G(`-^\(utils/pdb\.Limits\)\.IsCurrentlyReschedulable\(.*, \$0, .*\)$`)
+				sinks := w.ReturnSinks(pred, core.RetFalse)
+				for _, sk := range sinks {
+					if !w.RetGuarded(sk, cur) {
+						out = append(out, core.Bad(id, "PROV", construct+":filter", w.InstrPos(sk.Ret), "a reschedulable pod of a candidate can be left out of the simulation although pdbs.IsCurrentlyReschedulable holds for it"))
+					}
+				}
+			}
+		}
+	}
+	if len(out) == 0 {
+		return []core.Result{core.OK(id, "PROV", construct, nsites, "NewScheduler and Solve get candidate pods ∪ pods of deleting nodes ∪ pending pods; every candidate contributes")}
+	}
+	return out
+}
+
+// c06PriceCeiling — where the number the replacement must undercut comes from.
+func c06PriceCeiling() []Rule {
+	const rnp = "disr.resolveNodePrice"
+	label := func(k string) string { return `\(\*state\.StateNode\)\.Labels\(\$0\)\["` + k + `"\]` }
+	return []Rule{
+		core.Custom{ID: "C06.PRICE1", Kind: "PROV", Run: func(w *core.World, id string) []core.Result {
+			fn := w.Fn(rnp)
+			if fn == nil {
+				return []core.Result{core.Anchor(id, "PROV", rnp)}
+			}
+			construct := "PROV:" + rnp
+			var out []core.Result
+			n := 0
+			for _, s := range w.ReturnSinks(fn, core.RetAny) {
+				r := w.RenderD(s.Ret.Results[0], 9)
+				switch {
+				case r == "0":
+				case regexp.MustCompile(`^\(\*cloudprovider\.InstanceType\)\.OfferingPrice\(\$1, .*\)#0$`).MatchString(r):
+					n++
+					if !w.RetGuarded(s, G(`+^\(\*cloudprovider\.InstanceType\)\.OfferingPrice\(\$1, .*\)#1$`)) {
+						out = append(out, core.Bad(id, "PROV", construct, w.InstrPos(s.Ret), "resolveNodePrice returns OfferingPrice's number without OfferingPrice having found the offering"))
+					}
+				default:
+					out = append(out, core.Bad(id, "PROV", construct, w.InstrPos(s.Ret), "resolveNodePrice returns `"+clipStr(r, 120)+"`: neither 0 (unknown: nothing can undercut it) nor the price OfferingPrice found for the node's own offering"))
+				}
+			}
+			if n == 0 {
+				out = append(out, core.Bad(id, "PROV", construct, w.Pos(fn.Pos()), "vacuous: resolveNodePrice never returns OfferingPrice(...)#0"))
+			}
+			out = append(out, tc06Bad(core.ArgProvenance(w, id, rnp, `^call \(\*cloudprovider\.InstanceType\)\.OfferingPrice\(`, 1, `^`+label(`topology\.kubernetes\.io/zone`)+`$`, "the offering is looked up under the node's zone label"))...)
+			out = append(out, tc06Bad(core.ArgProvenance(w, id, rnp, `^call \(\*cloudprovider\.InstanceType\)\.OfferingPrice\(`, 2, `^`+label(`karpenter\.sh/capacity-type`)+`$`, "…and the node's capacity-type label"))...)
+			if len(out) == 0 {
+				return []core.Result{core.OK(id, "PROV", construct, n, "0 or the price of the offering with the node's zone and capacity type")}
+			}
+			return tc06Explain(out, "the price of a candidate is the ceiling every replacement option must stay below: it has to be the price of the offering the node actually runs on (or 0)")
+		}},
+		core.Custom{ID: "C06.PRICE2", Kind: "PROV", Run: func(w *core.World, id string) []core.Result {
+			it := `\$7\[\(\*state\.StateNode\)\.Labels\(.*\)\["karpenter\.sh/nodepool"\]\]\[\(\*state\.StateNode\)\.Labels\(.*\)\["node\.kubernetes\.io/instance-type"\]\]`
+			rs := core.InstrPresent(w, id, "PROV", "disr.NewCandidate", `^store &local<disr\.Candidate>\.Price = disr\.resolveNodePrice\(\$4, `+it+`\)$`, 1, "Candidate.Price is the resolved price of the node on the instance type its label names in its own pool")
+			rs = append(rs, core.InstrPresent(w, id, "PROV", "disr.NewCandidate", `^store &local<disr\.Candidate>\.capacityType = \(\*state\.StateNode\)\.Labels\(\$4\)\["karpenter\.sh/capacity-type"\]$`, 1, "Candidate.capacityType (spot-to-spot routing) is the node's capacity-type label")...)
+			return rs
+		}},
+	}
+}
+
+// c06Emptiness — "deleted as empty only if no reschedulable pod has a positive eviction cost".
+func c06Emptiness() []Rule {
+	const (
+		ecc = "(*disr.Emptiness).ComputeCommands"
+		evc = "(*disr.EmptinessValidator).validateCandidates"
+		gct = "disr.GetCandidatesWithTotals"
+	)
+	candFilter := `^call lo\.Filter\[\*disr\.Candidate, \[\]\*disr\.Candidate\]\(`
+	return []Rule{
+		DOM{ID: "C06.EMP1", Fn: ecc, Shallow: true, Sink: `^call append\(`, Gates: gates(G(`+^\(\*disr\.Candidate\)\.IsEmpty\(`)),
+			Note: "a candidate is added to the emptiness command only if it IsEmpty"},
+		core.Custom{ID: "C06.EMP1b", Kind: "PROV", Run: func(w *core.World, id string) []core.Result {
+			return core.InstrPresent(w, id, "PROV", ecc, `^store &local<disr\.Command>\.Candidates = phi\(makeslice<\[\]\*disr\.Candidate>\|`, 1, "the emptiness command carries the list built under the IsEmpty test")
+		}},
+		// IsEmpty ⇔ RescheduleDisruptionCost ≤ base (1.0); the cost is 1 + Σ max(0, EvictionCost) (C06.TT1)
+		MPT{ID: "C06.EMP2", Fn: "(*disr.Candidate).IsEmpty", Ret: core.RetTrue, Gates: gates(G(`-^1 < \$0\.RescheduleDisruptionCost$`)), Note: "empty ⇒ no positive eviction cost was added to the base"},
+		// the re-validation replaces the candidates by fresh ones that passed Emptiness.ShouldDisrupt
+		MPT{ID: "C06.EMP3", Fn: "(*disr.Emptiness).ShouldDisrupt", Ret: core.RetTrue, Gates: gates(G(`+^\(\*disr\.Candidate\)\.IsEmpty\(\$2\)$`)), Note: "the emptiness filter implies IsEmpty"},
+		core.Custom{ID: "C06.EMP3b", Kind: "PROV", Run: func(w *core.World, id string) []core.Result {
+			rs := core.InstrPresent(w, id, "PROV", "disr.NewEmptinessValidator", `^store &local<disr\.EmptinessValidator>\.filter = closure:\(\*disr\.Emptiness\)\.ShouldDisrupt\$bound$`, 1, "the emptiness validator filters with Emptiness.ShouldDisrupt")
+			rs = append(rs, core.ArgProvenance(w, id, evc, `^call disr\.GetCandidates\(`, 6, `^\$0\.filter$`, "the validator's fresh candidates are filtered with its filter")...)
+			rs = append(rs, core.ArgProvenance(w, id, "disr.GetCandidates", `^call disr\.GetCandidatesWithTotals\(`, 6, `^\$6$`, "GetCandidates hands the filter on")...)
+			rs = append(rs, core.InstrPresent(w, id, "PROV", "disr.GetCandidates", `^return disr\.GetCandidatesWithTotals\(.*\)#0, disr\.GetCandidatesWithTotals\(.*\)#2$`, 1, "…and returns the filtered list")...)
+			return rs
+		}},
+		// what the emptiness validator hands back are current representations (fresh GetCandidates), never the stale proposal
+		core.Custom{ID: "C06.EMP5", Kind: "PROV", Run: func(w *core.World, id string) []core.Result {
+			fn := w.Fn(evc)
+			if fn == nil {
+				return []core.Result{core.Anchor(id, "PROV", evc)}
+			}
+			construct := "PROV:" + evc + ":fresh"
+			fresh := regexp.MustCompile(`^(lo\.Filter\[\*disr\.Candidate, \[\]\*disr\.Candidate\]\()?disr\.mapCandidates\(\$2, disr\.GetCandidates\(.*\)#0\)(, [a-z]+:[^ ]*\))?$`)
+			var out []core.Result
+			sinks := w.ReturnSinks(fn, core.RetNilConst)
+			if len(sinks) == 0 {
+				out = append(out, core.Bad(id, "PROV", construct, w.Pos(fn.Pos()), "vacuous: no success return"))
+			}
+			for _, s := range sinks {
+				if r := w.RenderD(s.Ret.Results[0], 9); !fresh.MatchString(r) {
+					out = append(out, core.Bad(id, "PROV", construct, w.InstrPos(s.Ret), "emptiness validation hands back `"+clipStr(r, 120)+"`: not (a filtered part of) mapCandidates(proposed, GetCandidates(...)) — a node that received a pod during the validation delay would still be deleted as empty"))
+				}
+				if !w.RetGuarded(s, G(`+^disr\.GetCandidates\(.*\)#1 == nil$`)) {
+					out = append(out, core.Bad(id, "PROV", construct, w.InstrPos(s.Ret), "emptiness validation succeeds although listing the current candidates failed"))
+				}
+			}
+			if len(out) == 0 {
+				return []core.Result{core.OK(id, "PROV", construct, len(sinks), "validated ⊆ mapCandidates(proposed, fresh candidates)")}
+			}
+			return out
+		}},
+		core.Custom{ID: "C06.EMP4", Kind: "PROV", Run: func(w *core.World, id string) []core.Result {
+			fn := w.Fn(gct)
+			if fn == nil {
+				return []core.Result{core.Anchor(id, "PROV", gct)}
+			}
+			construct := "PROV:" + gct + ":filtered"
+			var out []core.Result
+			sinks := w.ReturnSinks(fn, core.RetNilConst)
+			if len(sinks) == 0 {
+				out = append(out, core.Bad(id, "PROV", construct, w.Pos(fn.Pos()), "vacuous: no success return"))
+			}
+			for _, s := range sinks {
+				if r := w.RenderD(s.Ret.Results[0], 9); !regexp.MustCompile(`^lo\.Filter\[\*disr\.Candidate, \[\]\*disr\.Candidate\]\(.*, [a-z]+:[^ ]*\)$`).MatchString(r) {
+					out = append(out, core.Bad(id, "PROV", construct, w.InstrPos(s.Ret), "the candidates returned are `"+clipStr(r, 120)+"`: not the list filtered (kept when the predicate holds) by the method's ShouldDisrupt"))
+				}
+			}
+			out = append(out, tc06Bad((MPT{ID: id, Fn: "@arg:" + gct + "|" + candFilter + "|1", Ret: core.RetTrue, Gates: gates(G(`+^dyn:\^?\$6\(\$0\)$`)), Note: "kept ⇒ shouldDisrupt(candidate)"}).Check(w))...)
+			if len(out) == 0 {
+				return []core.Result{core.OK(id, "PROV", construct, len(sinks), "candidates = Filter(all, shouldDisrupt)")}
+			}
+			return tc06Explain(out, "every candidate a method (or its validator) works on must have passed that method's ShouldDisrupt: for Emptiness this is the only place the re-validated nodes are tested for IsEmpty")
+		}},
+	}
+}
+
+// c06ValidationChain — the re-simulation decides: nothing between validateCommand and the command leaving ComputeCommands
+// may turn a failed validation into a success.
+func c06ValidationChain() []Rule {
+	const (
+		isv = "(*disr.ConsolidationValidator).isValid"
+		cvc = "(*disr.ConsolidationValidator).validateCandidates"
+	)
+	vc := `\(\*disr\.ConsolidationValidator\)\.validateCandidates\(\$0, \$2\.Candidates\)`
+	oneCmd := core.RetSpec{Index: -1, Want: "nilconst", Also: `^return &local<\[1\]disr\.Command>\[:\], nil$`}
+	validated := gates(G(`+^iface:\(disr\.Validator\)\.Validate\(\$0\.validator, .*\)#1 == nil$`))
+	return []Rule{
+		MPT{ID: "C06.VAL1", Fn: isv, Ret: core.RetOK, Gates: gates(
+			G(`+^`+vc+`#1 == nil$`),
+			G(`+^\(\*disr\.validation\)\.validateCommand\(\$0\.validation, \$2, `+vc+`#0\) == nil$`),
+		), Note: "valid ⇒ the command was re-simulated on its freshly validated candidates and passed"},
+		MPT{ID: "C06.VAL2", Fn: "(*disr.ConsolidationValidator).Validate", Ret: core.RetNilConst, Gates: gates(
+			G(`+^\(\*disr\.ConsolidationValidator\)\.isValid\(\$0, \$2, \$3\) == nil$`),
+		)},
+		MPT{ID: "C06.VAL3", Fn: "(*disr.SingleNodeConsolidation).ComputeCommands", Ret: oneCmd, Gates: validated, Note: "a single-node command leaves only after Validate succeeded"},
+		MPT{ID: "C06.VAL3b", Fn: "(*disr.MultiNodeConsolidation).ComputeCommands", Ret: oneCmd, Gates: validated, Note: "a multi-node command leaves only after Validate succeeded"},
+		// the candidates that are re-simulated are the proposed ones (by name), all of them
+		core.Custom{ID: "C06.VAL4", Kind: "PROV", Run: func(w *core.World, id string) []core.Result {
+			const mc = "disr.mapCandidates"
+			rs := tc06OnlyReturn(w, id, mc, `^return lo\.Filter\[\*disr\.Candidate, \[\]\*disr\.Candidate\]\(\$1, [a-z]+:[^ ]*\)$`, "mapCandidates is the current candidates filtered (kept when the predicate holds)")
+			pred := "@arg:" + mc + `|^call lo\.Filter\[\*disr\.Candidate, \[\]\*disr\.Candidate\]\(|1`
+			has := `\(apim/util/sets\.String\)\.Has\(.*, \(\*state\.StateNode\)\.Name\(\$0\.StateNode\)\)`
+			rs = append(rs, (MPT{ID: id, Fn: pred, Ret: core.RetTrue, Gates: gates(G(`+^` + has + `$`)), Note: "kept ⇒ proposed"}).Check(w)...)
+			rs = append(rs, (MPT{ID: id, Fn: pred, Ret: core.RetFalse, Gates: gates(G(`-^` + has + `$`)), Note: "dropped ⇒ not proposed"}).Check(w)...)
+			rs = append(rs, core.ArgProvenance(w, id, pred, `^call \(apim/util/sets\.String\)\.Has\(`, 0, `^\^?apim/util/sets\.NewString\(lo\.Map\[\*disr\.Candidate, string\]\(\$0, [a-z]+:[^ ]*\)\)$`, "the names are those of the proposed candidates")...)
+			rs = append(rs, core.InstrPresent(w, id, "PROV", "@arg:"+mc+`|^call lo\.Map\[\*disr\.Candidate, string\]\(\$0, |1`, `^return \(\*state\.StateNode\)\.Name\(\$0\.StateNode\)$`, 1, "…their node names")...)
+			return tc06Explain(rs, "validation re-simulates and returns the CURRENT representation of exactly the proposed candidates")
+		}},
+		core.Custom{ID: "C06.VAL5", Kind: "MPT", Run: func(w *core.World, id string) []core.Result {
+			fn := w.Fn(cvc)
+			if fn == nil {
+				return []core.Result{core.Anchor(id, "MPT", cvc)}
+			}
+			construct := "MPT:" + cvc + "⇒nilconst"
+			mapped := `disr\.mapCandidates\(\$2, disr\.GetCandidates\(.*\)#0\)`
+			all := G(`+^len\(\$2\) == len\(` + mapped + `\)$`)
+			var out []core.Result
+			sinks := w.ReturnSinks(fn, core.RetNilConst)
+			if len(sinks) == 0 {
+				out = append(out, core.Bad(id, "MPT", construct, w.Pos(fn.Pos()), "vacuous: no success return"))
+			}
+			for _, s := range sinks {
+				if !w.RetGuarded(s, all) {
+					out = append(out, core.Bad(id, "MPT", construct+"⇐"+all.Text, w.InstrPos(s.Ret), "candidates validate although some proposed candidate has no current representation"))
+				}
+				if r := w.RenderD(s.Ret.Results[0], 9); !regexp.MustCompile(`^` + mapped + `$`).MatchString(r) {
+					out = append(out, core.Bad(id, "MPT", construct, w.InstrPos(s.Ret), "the validated candidates are `"+clipStr(r, 120)+"`, not mapCandidates(proposed, GetCandidates(...))"))
+				}
+			}
+			if len(out) == 0 {
+				return []core.Result{core.OK(id, "MPT", construct, len(sinks), "validated = mapCandidates(proposed, fresh), none missing")}
+			}
+			return out
+		}},
+	}
 }
